@@ -118,13 +118,13 @@ func matrixC04R(t *testing.T, r *ev.Run, R time.Duration) {
 	}
 	for _, nc := range matrixCfgs() {
 		for _, delta := range deltas {
-			for variant := 0; variant < 4; variant++ {
+			for variant := 0; variant < 5; variant++ {
 				if R == 0 && variant >= 2 {
 					continue
 				}
 				coldToo := variant == 1
-				// variants 2 and 3: from the moment the system key has expired every encrypt of the long-lived session
-				// meets a transient fault at its first metastore read (2) or KMS call (3): the operation may fail, but
+				// variants 2 to 4: from the moment the system key has expired every encrypt of the long-lived session
+				// meets a transient fault at its first metastore read (2), its first KMS call (3) or its first KMS EncryptKey call (4): the operation may fail, but
 				// it must not fall back to the cached intermediate key under the expired system key for longer than
 				// the property allows; the last encrypt runs without a fault and has to rotate
 				faultKind := 0
@@ -164,10 +164,14 @@ func matrixC04R(t *testing.T, r *ev.Run, R time.Duration) {
 						sleepUntil(pt)
 						if faultKind != 0 && pt.After(skBorn.Add(E)) && pt != pts[len(pts)-1] {
 							h.p.FaultPct = -1 // faults are placed by the scenario
-							if faultKind == 1 {
+							switch faultKind {
+							case 1:
 								h.w.MS.ReadFaultIn = 1
-							} else {
+							case 2:
 								h.w.KMS.Faults[h.w.KMS.N()] = true
+							default:
+								// the KMS cannot wrap new system keys (reads and unwraps keep working)
+								h.w.KMS.FailEncrypts = 1
 							}
 							r.Count("matrix_c04_faults_armed", 1)
 						}
